@@ -86,8 +86,8 @@ CLAIMED = {
         'bytes machines (whole and at every 2-way chunking), compared with the extracted reference; a sample of the same machine graphs is run through the '
         'engine interpreter model (Model/Engine.v).',
    note='Trusted: Coq kernel; extraction + driver; printer from the expression AST to regex text (props/c11.py).  greenery (regex -> DFA) is third-party and is exercised, '
-        'not verified.  Two recorded known findings: bytes machines are not faithful on multi-byte *input* symbols (lead byte consumed then NonTerminal; "." and '
-        'negated classes match one byte).  The quick tier samples expressions/strings, the thorough tier is exhaustive up to the stated bounds.',
+        'not verified.  Three recorded known findings: bytes machines are not faithful on multi-byte *input* symbols (lead byte consumed then NonTerminal; "." and '
+        'negated classes match one byte); greenery 2.1 reduces (XX+)? / (X{n,})? with n>=2 / (XX+)* to X*, so those machines accept a single X.  The quick tier samples expressions/strings, the thorough tier is exhaustive up to the stated bounds.',
    technique='Coq proof (derivatives = standard semantics; longest-viable-prefix run) + exhaustive small-scope correspondence', design='6 C11'),
  'C10': dict(
    text='Coq theorems (Properties/C10.v) over an interpreter for the automata engine (Model/Engine.v: state.run / transition / __getitem__ order, limit -> absolute '
